@@ -113,7 +113,7 @@ func Main(raceBuild bool) {
 		}
 		p := c.Partial()
 		for _, v := range p.Violations {
-			fmt.Printf("reproduced: kind=%s %s\n", v.Kind, v.What)
+			fmt.Printf("reproduced: kind=%s attrs=%v %s\n", v.Kind, v.Attrs, v.What)
 		}
 		if len(p.Inconclusive) > 0 {
 			fmt.Printf("inconclusive: %v notes: %v\n", p.Inconclusive, p.Notes)
